@@ -274,6 +274,7 @@ func (v *FnVerifier) reset() {
 	v.siteN = map[string]int{}
 	v.loopsFound = map[int]bool{}
 	v.pending = nil
+	v.ceils = nil
 	v.now0 = v.ctx.Const("now!0", SInt)
 	v.entry = &State{arr: map[string]Term{}, now: v.now0}
 }
